@@ -170,6 +170,8 @@ def triage(pid, violations):
 
 def write_evidence(pid, tier, level, coverage, assumptions, wall_s, violations, seed=0):
     os.makedirs(os.path.join(VERIF, "evidence"), exist_ok=True)
+    if not coverage.get("states") or not coverage.get("transitions"):
+        coverage = {k: v for k, v in coverage.items() if k not in ("states", "transitions")}
     ev = {"property_id": pid, "tier": tier, "seed": int(seed), "level": level, "coverage": coverage,
           "assumptions": assumptions, "wall_s": round(wall_s, 3), "violations": int(violations)}
     path = os.path.join(VERIF, "evidence", pid + ".json")
@@ -262,3 +264,54 @@ def rsched_replay(binary, path):
     env = dict(os.environ)
     env.update(SAN_ENV)
     return subprocess.run([binary, "--replay", path] + args, env=env).returncode
+
+
+def run_seqx(binary, args, timeout=None, env_extra=None):
+    """Run a sequential enumerator; it prints one JSON report on stdout, exit 0/1."""
+    env = dict(os.environ)
+    env.update(SAN_ENV)
+    if env_extra:
+        env.update(env_extra)
+    p = sh([binary] + [str(a) for a in args], capture_output=True, text=True, env=env, timeout=timeout)
+    out = p.stdout.strip().splitlines()
+    rep = None
+    for line in reversed(out):
+        if line.startswith("{"):
+            try:
+                rep = json.loads(line)
+                break
+            except ValueError:
+                pass
+    if rep is None:
+        # a crash (sanitizer abort) before the report: the sanitizer headline becomes the signature
+        err = p.stderr
+        m = re.search(r"(ERROR: AddressSanitizer[^\n]*|[^\n]*runtime error:[^\n]*)", err)
+        if m:
+            sig = re.sub(r"0x[0-9a-f]+", "X", m.group(1))[:300]
+            return {"harness": os.path.basename(binary), "evaluations": 0, "distinct_nontrivial": 0, "states": 0, "transitions": 0,
+                    "exhaustive": False, "violations_total": 1, "wall_s": 0, "samples": [], "crashed": True,
+                    "violations": [{"signature": "crash: " + sig, "detail": err[-3000:], "count": 1}], "args": [str(a) for a in args]}
+        raise EngineError(f"{binary} {' '.join(map(str, args))}: no report (rc={p.returncode})\n{p.stdout[-1500:]}\n{p.stderr[-1500:]}")
+    rep["args"] = [str(a) for a in args]
+    rep["rc"] = p.returncode
+    if p.returncode not in (0, 1):
+        raise EngineError(f"{binary}: rc={p.returncode}\n{p.stderr[-1500:]}")
+    return rep
+
+
+def seqx_collect(pid, label, reps):
+    """Merge seqx reports; save one replay JSON per violation signature."""
+    tot = {"evaluations": 0, "distinct_nontrivial": 0, "states": 0, "transitions": 0, "samples": [], "exhaustive": True}
+    viol = []
+    for r in reps:
+        for k in ("evaluations", "distinct_nontrivial", "states", "transitions"):
+            tot[k] += r.get(k, 0)
+        tot["exhaustive"] &= bool(r.get("exhaustive"))
+        for s in r.get("samples", [])[:3]:
+            tot["samples"].append({"harness": r["harness"], "args": r["args"], "case": s})
+        for i, v in enumerate(r.get("violations", [])):
+            name = re.sub(r"[^A-Za-z0-9]+", "_", f"{r['harness']}_{'_'.join(r['args'])}_{i}")[:120] + ".json"
+            rp = save_replay(pid, name, {"property": pid, "harness": r["harness"], "args": r["args"],
+                                        "signature": v["signature"], "case": v["detail"], "count": v.get("count", 1)})
+            viol.append({"signature": f"{label}:{r['harness']} {v['signature']}", "replay": rp, "detail": v["detail"]})
+    return tot, viol
